@@ -25,6 +25,12 @@ class HarnessBroken(Exception):
     '''the harness itself is wrong (exit 2) - never a VIOLATION'''
 
 
+class GraphMismatch(Exception):
+    '''the task graph built by the real code lacks an algorithm the engine
+    declares: reported as a violation by the scheduler checks (such an
+    algorithm can never be released, withheld or re-run)'''
+
+
 _BOOTED = False
 
 
